@@ -50,16 +50,17 @@ class VC:
         from .loops import Forever
         return Forever()
 
-    def cut(self, label, it, getters, order):
+    def cut(self, label, it, getters, order, aug=()):
         spec = self.loops.get(label)
         if spec is None:
             raise Undecided(f"no loop contract for {label}")
         spec.order = list(order)
         spec.assigned = set(order)
+        spec.aug = set(aug)
         return spec.cut(self, label, it, getters)
 
     def havoc_locals(self, label):
         return self.loops[label].havoc_values()
 
-    def exit_locals(self, label):
-        return self.loops[label].exit_values()
+    def exit_locals(self, label, targets=()):
+        return self.loops[label].exit_values(targets)
